@@ -47,7 +47,7 @@ func genCase(t *rapid.T) Case {
 		PeriodPct:  rapid.SampledFrom([]int{20, 50, 200}).Draw(t, "period"),
 		NextUpdate: rapid.SampledFrom([]string{"", "", "past"}).Draw(t, "next"),
 		FlipAfter:  rapid.IntRange(1, 3).Draw(t, "flip"),
-		Twin:       rapid.SampledFrom([]string{"none", "cn", "dc", "email", "order", "std-order", "dup-cn", "grouping"}).Draw(t, "twin"),
+		Twin:       rapid.SampledFrom([]string{"none", "cn", "dc", "email", "order", "std-order", "dup-cn", "grouping", "org"}).Draw(t, "twin"),
 		Instances:  rapid.IntRange(1, 2).Draw(t, "inst"),
 		FailFirst:  rapid.IntRange(0, 3).Draw(t, "failfirst") == 0,
 		CAKey:      rapid.SampledFrom([]string{"p256a", "rsa2048a"}).Draw(t, "cakey"),
@@ -80,6 +80,8 @@ func issuerNames(base, twin string) (gen.NameSpec, gen.NameSpec) {
 	switch twin {
 	case "std-order": // X.500 order vs LDAP order
 		return std, gen.NameSpec{{{T: "CN", V: base + " issuing ca"}}, {{T: "O", V: "verif"}}, {{T: "C", V: "DE", Kind: "printable"}}}
+	case "org": // same common name, another organisation
+		return std, gen.NameSpec{{{T: "C", V: "DE", Kind: "printable"}}, {{T: "O", V: "verif two"}}, {{T: "CN", V: base + " issuing ca"}}}
 	case "dup-cn": // an additional, earlier CN
 		return std, gen.NameSpec{{{T: "C", V: "DE", Kind: "printable"}}, {{T: "O", V: "verif"}}, {{T: "CN", V: "former name"}}, {{T: "CN", V: base + " issuing ca"}}}
 	case "grouping": // O and CN in ONE multi-valued RDN
@@ -327,7 +329,7 @@ var spec = ev.Spec[Case]{
 	ID:   "C14",
 	Gen:  genCase,
 	Run:  runCase,
-	Rule: "rapid draws an access pattern: default cache duration D in {0, 300, 400, 600 ms}, read period in {D/5, D/2, 2D}, 6..14 reads alternating over 1..2 checker instances, responder flip good->revoked after 1..3 reads, nextUpdate in {absent, already past}, optionally a first query that fails, and a twin certificate with identical subject and serial from another issuer whose name differs in CN / a DC component / an added emailAddress / RDN order (of DC components, or X.500 vs LDAP order of C, O, CN) / an additional earlier CN / the grouping of O and CN into one multi-valued RDN. Oracles: (a) a read that STARTS more than D + 60 ms after the answer now cached was obtained must ask the responder again (upper bound only: slowness adds time and can never cause a failure); a read that asked the responder returns the responder's current status; (b) the twin triggers a request to its own responder and gets its own verdict; (c) with D = 0 and no usable nextUpdate every read asks the responder; (d) after a failed query the next read asks again; (e) white-box: after an authentic answer with nextUpdate = now + 1 h and a thisUpdate 0 / 1 / 6 / 48 h old, the lifetime stored with the cache entry (the cache library's LifeSpan and / or the absolute expiry kept with the response, read through a verif export) is at most nextUpdate - now + 15 min; (g) optionally, after the pattern the cached answer runs out and the responder then fails (HTTP 500, garbage, or an answer signed by a stranger): every (strict) instance must deny; (f) in half of the cases two different certificates are first checked concurrently on one instance while the first responder is held, and each must afterwards get its own status. Every case is non-trivial; distinct by the full pattern.",
+	Rule: "rapid draws an access pattern: default cache duration D in {0, 300, 400, 600 ms}, read period in {D/5, D/2, 2D}, 6..14 reads alternating over 1..2 checker instances, responder flip good->revoked after 1..3 reads, nextUpdate in {absent, already past}, optionally a first query that fails, and a twin certificate with identical subject and serial from another issuer whose name differs in CN / a DC component / an added emailAddress / RDN order (of DC components, or X.500 vs LDAP order of C, O, CN) / the organisation only (same CN) / an additional earlier CN / the grouping of O and CN into one multi-valued RDN. Oracles: (a) a read that STARTS more than D + 60 ms after the answer now cached was obtained must ask the responder again (upper bound only: slowness adds time and can never cause a failure); a read that asked the responder returns the responder's current status; (b) the twin triggers a request to its own responder and gets its own verdict; (c) with D = 0 and no usable nextUpdate every read asks the responder; (d) after a failed query the next read asks again; (e) white-box: after an authentic answer with nextUpdate = now + 1 h and a thisUpdate 0 / 1 / 6 / 48 h old, the lifetime stored with the cache entry (the cache library's LifeSpan and / or the absolute expiry kept with the response, read through a verif export) is at most nextUpdate - now + 15 min; (g) optionally, after the pattern the cached answer runs out and the responder then fails (HTTP 500, garbage, or an answer signed by a stranger): every (strict) instance must deny; (f) in half of the cases two different certificates are first checked concurrently on one instance while the first responder is held, and each must afterwards get its own status. Every case is non-trivial; distinct by the full pattern.",
 	Assumptions: []string{
 		"lifetimes of nextUpdate + 15 min cannot be waited out; the default-duration lifetime is exercised in time, the nextUpdate lifetime is read white-box from the cache library's item (skipped if the item cannot be found)",
 		"wall-clock: only lower bounds on elapsed time are used, so a slow machine cannot produce a violation",
